@@ -22,52 +22,52 @@ CHECKS = {
    text='Stress runs with up to 64 threads on 16 cores, long injected delays at scheduler exit/column release, singular inputs; the event log proves per execution that every column/panel was processed exactly once by one thread, tasks_remain counts down to 0 exactly at the last take, queue indices stay within n, and /proc/self/task is unchanged; a watch thread inside the probe reports the state "every worker\'s latest scheduler call came back empty, each has polled again since, no event in between" (from which the call cannot return, whatever the timing); two watchdog time-outs are a hang witness; bushy elimination trees (stars, k-ary, caterpillars) repeated 40x per case put many siblings under one parent; the scheduler explorer of C03 asserts tasks_remain = untaken panels, queue bounds, exactly-once and absence of states without an enabled action for all small forests.',
    note='"Eventually" is decided as "no lost-wake-up state and returned within the watchdog on every executed schedule".', ref='5/C04'),
  'C05': dict(tech='AddressSanitizer+UBSan build of the whole library under hostile workloads + slot-bound shadow monitor at the L-supernode allocation hook',
-   text='ASan/UBSan executions of drivers and direct factorization in static and dynamic storage modes, all forced pivot orders on small patterns, too-small size estimates (must end in the library diagnostic); the slot monitor checks every L-supernode allocation against the slot reserved by ?PresetMap/DynamicSetMap, the one overflow ASan cannot see.',
-   note='ASan guards heap block ends only; intra-block overruns of the per-thread work arrays are caught only through their consequences.', ref='5/C05'),
- 'C09': dict(tech='structural validator run on every returned factorization under perturbation of supernode numbering vs. subscript allocation',
-   text='Every successful factorization of the C01/C02-style workloads is passed through a validator of the SCP/NCP structures and permutations; perturbation mode 4 delays threads between NewNsuper and the LSUB allocation, and the event log counts how often numbering and storage order actually differed.',
+   text='ASan/UBSan executions of drivers and direct factorization in static and dynamic storage modes, all forced pivot orders on small patterns, too-small size estimates (must end in the library diagnostic); symmetric-mode factorizations of structurally unsymmetric inputs; the slot monitor checks every L-supernode allocation against the slot reserved by ?PresetMap/DynamicSetMap, the one overflow ASan cannot see; no returned supernode may be wider than sp_ienv(3) (the assumption behind the layout of the per-thread TriTmp/MatvecTmp strips).',
+   note='ASan guards heap block ends only; intra-block overruns of the per-thread work arrays are caught through the width invariant and through their consequences.', ref='5/C05'),
+ 'C09': dict(tech='structural validator run on every returned factorization (first-time and refactorization) under perturbation of supernode numbering vs. subscript allocation',
+   text='Every successful factorization of the C01/C02-style workloads and of refactorization histories (new values, other thread counts, pivot re-use) is passed through a validator of the SCP/NCP structures and permutations; perturbation mode 4 delays threads between NewNsuper and the LSUB allocation, and the event log counts how often numbering and storage order actually differed.',
    note='Array capacities are not known to the validator: extents are checked for sign, length, stride and disjointness, and ASan covers the ends.', ref='5/C09'),
  'C06': dict(tech='ASan build (one case per process) + plain build of both drivers on constructed singular inputs; info compared with an independent structural/exact oracle',
    text='Singular inputs built so that exact zeros are guaranteed in floating point (stored-zero column/row, isolated Hall blocks, isolated rank-1 +-1 blocks) and others where only safety is claimed (empty rows/columns, non-isolated Hall violators); oracle: normal return, 0<info<=n, expected index from construction / augmenting-path matching on the returned perm_c, B/X untouched, returned L/U walkable under ASan and destroyable.',
    note='For inputs whose elimination reaches a column with no candidate row the library corrupts memory (known finding); those classes are reported as KNOWN-FINDING, the exact-zero classes are fully enforced.', ref='5/C06'),
  'C07': dict(tech='runtime oracle: extended-precision componentwise backward error of the returned X for the original system, exact comparison of A_out/B_out with the reported scaling',
-   text='Expert-driver executions over trans x storage x {DOFACT, EQUILIBRATE, FACTORED reuse with new B and another trans} x forced equilibration outcomes x 4 precisions x threads; matrices with prescribed singular values give a certified premise kappa*growth*n*u<=1e-3 under which 4(n+1)u is enforced.',
-   note='Outside the premise only structural/NaN checks apply; complex + row-wise + CONJ is a known finding.', ref='5/C07'),
+   text='Expert-driver executions over trans x storage x {DOFACT, EQUILIBRATE, FACTORED reuse with new B and another trans} x forced equilibration outcomes x 4 precisions x threads; matrices with prescribed singular values, element-growth (Wilkinson) matrices, exact integer systems with exactly zero solution components and right-hand sides with zero / tiny columns; output arguments (equed, R, C, rcond, pivot growth) are poisoned before the call; under the premises kappa*growth*n*u<=1e-3 and cond(A^-1)*sigma(A,x)*(n+1)*u<=0.1 (Skeel) 4(n+1)u is enforced, and the unrefined LU bound 8*gamma(3n)|L||U||x| in every case.',
+   note='info in {0, n+1} is asserted for kappa_1*n*u <= 0.01; complex + row-wise + CONJ was wrong on the pinned tree and is repaired (fix bd86211).', ref='5/C07'),
  'C12': dict(tech='runtime oracle: explicit extended-precision inverse, two-sided bounds on rcond, recomputed pivot growth',
-   text='Expert-driver executions on matrices with prescribed condition numbers up to 1e-3/eps in both norms (all trans x storage), thresholds u in {1,0.5,0.1}; rcond is bounded below by 1/kappa and above by the estimators own first iterate (and by a weaker bound that tolerates the LAPACK non-monotone last step); info=n+1 iff rcond<eps; pivot growth recomputed from the returned factors.',
+   text='Expert-driver executions on matrices with prescribed condition numbers up to 1e-3/eps in both norms (all trans x storage), thresholds u in {1,0.5,0.1}; rcond is bounded below by 1/kappa and above by the estimators own first iterate (and by a weaker bound that tolerates the LAPACK non-monotone last step); info=n+1 iff rcond<eps; pivot growth recomputed from the returned factors; both also for calls that re-use the factors (fact = FACTORED) with poisoned output scalars.',
    note='The literal e/n upper bound is violated by the LAPACK-derived estimator on rare inputs (known finding).', ref='5/C12'),
  'C13': dict(tech='runtime oracle: reported berr vs extended-precision backward error of the returned X; ferr vs exact solution of the equilibrated system',
-   text='Expert-driver executions with nrhs>=1 up to cond 0.1/eps; berr must equal the true componentwise backward error (in the |re|+|im| magnitude the routine uses) within 4(nz+6)u, be O((n+1)u) under the premise, and 40*ferr must dominate the true relative error measured in the equilibrated system against an extended-precision reference with two refinement steps.',
+   text='Expert-driver executions with nrhs>=1 up to cond 0.1/eps; berr must equal the true componentwise backward error (in the |re|+|im| magnitude the routine uses) within 4(nz+6)u, be O((n+1)u) under the premises (incl. the Skeel condition), and 40*ferr must dominate the true relative error measured in the equilibrated system against an extended-precision reference with two refinement steps.',
    note='ferr is judged in the equilibrated system: the driver does not rescale it to the original variables (LAPACK does).', ref='5/C13'),
  'C19': dict(tech='runtime oracle: dense extended-precision definitions of the kernels on random inputs; ASan on a subset',
    text='Direct calls of sp_?gemv/sp_?gemm (N/T/C, special alpha/beta, strides), sp_?trsv for all (uplo,trans) on factors produced by real multithreaded factorizations, ?langs for all norms, conversion/copy/permuted-view constructors, all four precisions.',
-   note='Non-unit strides on the scatter/gather side abort with "Not implemented" (known finding).', ref='5/C19'),
+   note='Operands include exact zeros (sparse, unit and zero vectors) and all stride combinations; strides on the scatter/gather side were unimplemented on the pinned tree and are repaired (fix 09e039d).', ref='5/C19'),
  'C10': dict(tech='runtime oracle: independent quadratic reference (explicit pattern of (A*Pc)^T(A*Pc), naive symbolic elimination) on enumerated and random patterns; ASan on a subset',
-   text='get_perm_c(0..3) and sp_colorder in both modes on every 0/1 pattern with n<=3 (quick; n=4 sampled in thorough) and on random/structured patterns with empty/dense rows and columns; the reported etree must equal the reference parent function of the final A*Pc, be postordered (contiguous subtrees), and the returned ordering may differ from the callers only by a relabelling of its elimination tree; A*Pc must alias A.',
+   text='get_perm_c(0..3) and sp_colorder in both modes on every 0/1 pattern with n<=3 (quick; n=4 sampled in thorough) and on random/structured patterns with empty/dense rows and columns; the reported etree must equal the reference parent function of the final A*Pc, be postordered (contiguous subtrees), and the returned ordering may differ from the callers only by a relabelling of its elimination tree; A*Pc must alias A; chains of 10^5..4*10^6 columns (1-3 interleaved) are run under the default 8 MB stack with linear-time checks.',
    note='Single-threaded code: no schedule quantifier. Column counts are not range-checked (degenerate for structurally singular patterns).', ref='5/C10'),
  'C11': dict(tech='runtime oracle: exact/ulp-level recomputation of scale factors, ratios and the apply rule; exact comparison of scaled data',
    text='?gsequ/?laqgs called directly on matrices of powers of two spanning the whole exponent range (clipping paths, zero rows/columns, 1x1, rectangular) and equilibrating expert-driver calls; every returned quantity is recomputed in extended precision and compared at ulp level; the driver outputs must equal the inputs scaled by the reported factors.',
    note='Working-precision underflow of R*A is replicated (a column whose scaled entries all underflow is reported as zero, as in LAPACK).', ref='5/C11'),
  'C15': dict(tech='table-driven fault injection on arguments; error-handler interception, checksums and heap balance around each call',
-   text='Every single documented violation and pairs of violations for both drivers and six computational routines in four precisions; the harness replaces xerbla_ (a documented override point) to record (routine, position) and checks info, exactly-once reporting, byte-level immutability of all arguments, heap balance (ASan allocator statistics or mallinfo2) and thread census.',
+   text='Every single documented violation, all pairs of violations, consistently-short and empty B/X, both scale vectors illegal, and every violation once more on a call without right-hand sides, for both drivers and six computational routines in four precisions; the harness replaces xerbla_ (a documented override point) to record (routine, position) and checks info, exactly-once reporting, byte-level immutability of all arguments, heap balance (ASan allocator statistics or mallinfo2) and thread census.',
    note='Positions are transcribed from the routines header comments; B/X type checks are only expected from routines that document them.', ref='5/C15'),
  'C08': dict(tech='runtime oracle over call histories: per-call reconstruction/residual/validator, extended-precision replay of the old pivot order, checksums around reuse calls',
    text='Random call sequences on one pattern (first factor, refactor with/without pivot reuse and new values, reuse-solves, destroy and start over) with thread counts varying between calls and both memory modes; after every call the factors are reconstructed against the values current at that call; with pivot reuse an extended-precision replay decides whether perm_r must be identical or must change; reuse-solves must leave A, L, U and permutations bit-identical.',
    note='Histories are sampled (length <=4 quick, <=10 thorough); replay bands of 1e-6 around the threshold are undecidable and counted.', ref='5/C08'),
- 'C14': dict(tech='fault enumeration: every allocation request failed in turn behind USER_MALLOC; caller workspaces of graded sizes under ASan; bitwise comparison of memory modes',
-   text='For each small configuration a counting run measures the K allocation requests of a driver call and request k and all later ones fail for every k=1..K (ASan+UBSan build); caller workspaces from 0 to 2x the query estimate are malloc blocks with red zones; lwork=-1 runs on sentinel-filled L/U; sufficient-workspace 1-thread runs must equal the internally allocated run bit for bit and keep every L/U array inside the buffer.',
-   note='Unchecked NULLs and undersized workspaces are known findings (listed); enforced for them: no hang, no silent success, diagnostic on exit.', ref='5/C14'),
+ 'C14': dict(tech='fault enumeration: every allocation request failed in turn behind USER_MALLOC; caller workspaces of graded (unaligned) sizes under ASan; work-array monitor on hook events (live arrays pairwise disjoint, inside the buffer, disjoint from the factors); used-extent overlap check of all L/U arrays; bitwise comparison of memory modes',
+   text='For each small configuration a counting run measures the K allocation requests of a driver call and request k and all later ones fail for every k=1..K (ASan+UBSan build); caller workspaces from 0 to 2x the query estimate are malloc blocks with red zones; lwork=-1 runs on sentinel-filled L/U; sufficient-workspace 1-thread runs must equal the internally allocated run bit for bit and keep every L/U array inside the buffer; 2-8-thread runs in buffers of unaligned size with stretched windows between the work-array requests are watched by the work-array monitor; U / L-subscript capacities near the real need and refactorizations in the same query-sized buffer with more threads must either fit or end in info > n / the library diagnostic.',
+   note='Six defects of this property found on the pinned tree are repaired (work-array re-alignment race, worker counting, lwork % 8, unchecked allocations, MemInit with a too small buffer); every workspace size from 0 to sufficient now returns info > n or completes.', ref='5/C14'),
  'C17': dict(tech='LeakSanitizer + sanitizer allocator statistics around repeated call sequences of every call class',
-   text='Call sequences by class (factor/solve/destroy, refactor chains, complete simple and expert driver calls, singular calls, workspace queries through p?gstrf and through the driver, user workspace) are repeated 3, 5 and 50 times in one ASan process; the live heap after repetition k must equal that after repetition 2, LeakSanitizer names any block left at exit, the thread census is unchanged.',
+   text='Call sequences by class (factor/solve/destroy, refactor chains, complete simple and expert driver calls incl. row-wise storage with re-use of factors and symmetric mode, singular calls, workspace queries through p?gstrf and through the driver, user workspace, diagonal matrices with empty adjacency structures) are repeated 3, 5 and 50 times in one ASan process; the live heap after repetition k must equal that after repetition 2, LeakSanitizer names any block left at exit, the thread census is unchanged.',
    note='One thread count per case (the C runtime caches per-thread structures); allocation-failure returns are covered by C14 runs without leak accounting.', ref='5/C17'),
  'C18': dict(tech='differential runtime check: output digest of a probe call in a fresh process vs after prefix histories in the same process',
-   text='Probe calls (first factorization + solve, complete driver calls; 1 thread, built-in kernels) are run fresh and after single and paired prefix histories (other sizes/families/tuning, refactor chains, sufficient and insufficient user workspace, singular calls, queries, 8-thread runs); every output byte is digested and must be identical.',
+   text='Probe calls (first factorization + solve, complete driver calls; 1 thread, built-in kernels) are run fresh and after single and paired prefix histories (other sizes/families/tuning, refactor chains, sufficient and insufficient user workspace, singular calls, queries, 8-thread runs); every output byte (for driver calls incl. equed, R, C, rcond, ferr, berr, pivot growth) is digested and must be identical; probes also run after 60-150-call histories, with zero right-hand sides, and as factor+refactor pairs in a query-sized caller workspace after histories of user-workspace calls that failed at swept buffer sizes (multi-thread probes: only the schedule-independent outputs are compared).',
    note='Prefixes in another precision are not exercised (one precision per probe binary).', ref='5/C18'),
  'C16': dict(tech='runtime oracle (reconstruction, perm_r == perm_c) + slot-bound shadow monitor + ASan/TSan builds on symmetric-mode workloads',
-   text='Symmetric-mode factorizations (direct and through the expert driver) of row/column diagonally dominant matrices with symmetric and unsymmetric patterns, threshold 0, ordering on A^T+A, 1..8 threads, perturbed; diagonal pivots are asserted as perm_r == perm_c, the fill-versus-prediction claim by the slot monitor at every L allocation, C01/C02 by the extended-precision oracles.',
+   text='Symmetric-mode factorizations (direct and through the expert driver) of row/column diagonally dominant matrices with symmetric and unsymmetric patterns (incl. pendant+clique gadgets where the A+A^T prediction and the column structure differ most, and grounded unit-weight Laplacians with exact magnitude ties), threshold 0, ordering on A^T+A, 1..8 threads, perturbed; diagonal pivots are asserted as perm_r == perm_c, the fill-versus-prediction claim by the slot monitor at every L allocation, C01/C02 by the extended-precision oracles.',
    note='Dominance guarantees non-vanishing diagonal pivots; other symmetric-mode inputs are outside the statement.', ref='5/C16'),
  'C20': dict(tech='differential runtime check against an independent python writer; readers run in child processes (plain and ASan) on generated files',
-   text='Files in the three formats with random legal edit descriptors, D/E exponents, optional right-hand-side sections, complex data, rectangular shapes and empty columns are generated from the format definitions and fed to the readers on stdin; dimensions, structure and every value (bit pattern of the correctly rounded printed decimal) must match.',
+   text='Files in the three formats with random legal edit descriptors (incl. fields that fill their whole width), random printable title/key text, D/E exponents, optional right-hand-side sections, complex data, rectangular shapes and empty columns are generated from the format definitions and fed to the readers on stdin; dimensions, structure and every value (bit pattern of the correctly rounded printed decimal) must match.',
    note='Symmetric-type files are a known finding (no expansion); for single precision the value obtained by double rounding through binary64 is accepted as well.', ref='5/C20'),
 }
 checks = []
